@@ -27,6 +27,7 @@ import ast
 import json
 import os
 import struct
+import time
 
 from harness import common
 
@@ -139,6 +140,8 @@ class Injector:
         self.sizes = []          # per effect: byte length of a file write / number of batch ops
         self.arm = None
         self.fired = False
+        self.gen = 0             # process generation: what a dead process (or a thread it left behind) writes is dropped
+        self.file_delay = 0      # seconds every file write takes (big-flush probe)
 
     def reset(self, arm=None):
         self.effects, self.sizes, self.arm, self.fired = [], [], arm, False
@@ -163,13 +166,20 @@ class Injector:
         a = self.arm
         if a is not None and not self.fired and a[1] == 'clean' and a[0] == len(self.effects):
             self._die()
+        if a is not None and not self.fired and a[0] == 'after' and text.startswith(a[1]):
+            self._die()          # arm = ('after', prefix): the process dies the moment that effect is complete
 
     # -- wrappers
     def wrap_file(self, lf, tag):
         orig = lf.write
+        gen = self.gen
 
         def write(start, b):
             b = bytes(b)
+            if self.file_delay:
+                time.sleep(self.file_delay)
+            if self.fired or gen != self.gen:
+                return           # the process is dead: nothing it (or a thread of it) still does reaches the disk
             a = self._enter('file')
             if a is not None:
                 orig(start, b[:a[2]])
@@ -234,6 +244,7 @@ class Injector:
         return st
 
     def install(self, db):
+        self.gen += 1
         self.wrap_file(db.headers_file, 'WH')
         self.wrap_file(db.tx_counts_file, 'WC')
         self.wrap_file(db.hashes_file, 'WX')
@@ -1070,6 +1081,81 @@ def shrink(v):
     return v
 
 
+def big_flush_probe(res, n_txs=50_500):
+    """One flush carrying more than 50,000 new tx hashes - the order of magnitude of every flush of an initial
+    sync, which generated chains never reach - with file writes that take a moment (0.15 s each), and the
+    process dying the instant the UTXO batch (which carries the state record: the commit point of the whole
+    flush) is committed.  The restarted index must open at the flush's height and answer every query like an
+    index of the same chain that was never interrupted (real vs real; no model side: 50,000 transactions)."""
+    from harness.world.chaingen import ZERO, MINUS_1
+    s0, s1 = NORMAL_SCRIPTS[0], NORMAL_SCRIPTS[1]
+    cb0 = GTx([(ZERO, MINUS_1)], [(50_0000_0000, s0)], nonce=1)
+    b0 = GBlock(900000, None, 0, [cb0], 1)
+    txs = [GTx([(ZERO, MINUS_1)], [(50_0000_0000, s1)], nonce=2)]
+    prev, val = (cb0.txid, 0), 50_0000_0000
+    for i in range(n_txs):
+        val -= 1
+        t = GTx([prev], [(val, s0 if i % 2 else s1)], nonce=i)
+        txs.append(t)
+        prev = (t.txid, 0)
+    b1 = GBlock(900001, b0, 1, txs, 2)
+    b2 = GBlock(900002, b1, 2, [GTx([(ZERO, MINUS_1)], [(50_0000_0000, s1)], nonce=3)], 3)
+
+    def observe(real):
+        out = {'state': real.q_state(), 'headers': real.q_headers(0, 4)}
+        for hgt in range(3):
+            out[f'tx hashes of height {hgt}'] = real.q_txhashes(hgt)
+        for sc in (s0, s1):
+            out[f'utxos of {sc.hex()[:12]}'] = real.q_utxos(hashx_of(sc))
+            out[f'history of {sc.hex()[:12]}'] = real.q_hist(hashx_of(sc), None)
+        return out
+
+    def run(arm):
+        real = CrashIndex(1000, 10)
+        try:
+            real.open()
+            real.advance(b0, 2)
+            real.flush(True)
+            real.advance(b1, 2)
+            real.advance(b2, 2)
+            real.inj.file_delay = 0.15
+            died = real.crashing(arm, real.flush, True) if arm else (real.flush(True) and False)
+            real.inj.file_delay = 0
+            if arm:
+                if not died:
+                    return 'harness: the cut did not fire', None
+                real.inj.reset()
+                r = real.open()
+                if r != 'ok':
+                    return f'the database does not open after the crash: {r}', None
+            return None, observe(real)
+        finally:
+            real.destroy()
+    err, want = run(None)
+    if err:
+        res.harness_errors.append(f'big flush probe: {err}')
+        return
+    res.bump('big_flush_probes')
+    res.evaluations += 1
+    err, got = run(('after', 'UB'))
+    case = {'entry': 'run', 'op': 'flush_dbs', 'probe': 'big_flush', 'txs_in_flush': n_txs + 2, 'cut_after': 'utxo-batch'}
+    if err and err.startswith('harness'):
+        res.harness_errors.append(f'big flush probe: {err}')
+    elif err:
+        res.violations.append(dict(case, suite='crash', clause='the database does not open after the crash',
+                                   detail=f'a flush of {n_txs + 2} transactions, process dies the instant the UTXO batch is '
+                                          f'committed: {err}', observable='height/open'))
+    else:
+        for k in want:
+            if got[k] != want[k]:
+                res.violations.append(dict(case, suite='crash', observable=k,
+                                           clause='real index differs from the uninterrupted index after crash + restart',
+                                           detail=f'a flush of {n_txs + 2} transactions, process dies the instant the UTXO '
+                                                  f'batch is committed; after the restart {k} is {got[k][:200]}... but the '
+                                                  f'uninterrupted index says {want[k][:200]}...'))
+                break
+
+
 def _run(entry, tier, seed):
     res = SuiteResult('crash')
     reorg = entry == 'run_backup'
@@ -1114,6 +1200,8 @@ def _run(entry, tier, seed):
                 break
     dedupe(res)
     res.violations = [shrink(v) for v in res.violations[:6]] + res.violations[6:]
+    if not reorg:
+        big_flush_probe(res)
     res.exhaustive = False
     need = ['recoveries', 'cut_clean', 'cut_mid', 'recoveries_running_clear_excess',
             'recoveries_pruning_undo_rows', 'second_crashes_inside_recovery']
@@ -1140,6 +1228,10 @@ def run_backup(tier, seed):
 
 def replay(case):
     res = SuiteResult('crash')
+    if case.get('probe') == 'big_flush':
+        big_flush_probe(res, case['txs_in_flush'] - 2)
+        return [f'violation: {v["clause"]}: {v["detail"]}' for v in res.violations] + \
+               [f'harness: {e}' for e in res.harness_errors]
     verdicts = run_one(res, case['entry'], Run(case['case']), 'replay', only_of(case) if case.get('cut') else None)
     return [f'{k}: {v.get("where")}: {v.get("clause", "model != code")}: {v.get("detail", v.get("line"))}'
             for k, v in verdicts] + [f'harness: {e}' for e in res.harness_errors]
